@@ -578,6 +578,7 @@ pub fn worker_main(args: &Args, w: usize, n: usize) -> ! {
         let lo = total * w as u64 / n as u64;
         let hi = total * (w as u64 + 1) / n as u64;
         let case_dir = scratch.path.join(format!("case-{ii}"));
+        let mut minimised_so_far = 0;
         for h in lo..hi {
             // every other history runs with seeded short reads on jubako's reader-side streams
             hooks.set_short_reads(if h % 2 == 1 { 300 } else { 0 }, h);
@@ -592,7 +593,11 @@ pub fn worker_main(args: &Args, w: usize, n: usize) -> ! {
                 }
             };
             let mut min_ops = None;
-            if let Some(first) = bad.first() {
+            // minimise only the first few failing histories of a worker (each attempt re-runs a history)
+            if bad.first().is_some() {
+                minimised_so_far += 1;
+            }
+            if let (Some(first), true) = (bad.first(), minimised_so_far <= 3) {
                 let class = classify(first);
                 let m = std::panic::catch_unwind(std::panic::AssertUnwindSafe(|| {
                     minimise(&case_dir, &img, &ops, &class)
